@@ -51,6 +51,9 @@ class ConnectNode(fm.TimeComponent):
                 self.outputs.add(name=o["name"])
             if o["info"] == "rule_from_in":
                 out_rules[o["name"]] = [FromInput(o["src"])]
+                if o.get("rule_meta"):
+                    # a further rule adds a metadata field to what was taken from the input
+                    out_rules[o["name"]].append(fm.tools.FromValue("origin", o["rule_meta"]))
         self.create_connector(pull_data=[i["name"] for i in self.spec["ins"] if i["pull"]], in_info_rules=in_rules, out_info_rules=out_rules)
 
     def snap(self):
@@ -128,6 +131,8 @@ def gen_connect_spec(rnd):
                 o["src"] = rnd.choice(ins)["name"]
                 # some components pass their infos on every call (as the shipped readers do)
                 o["always_push_info"] = o["info"] == "from_in" and rnd.random() < 0.5
+                if o["info"] == "rule_from_in" and rnd.random() < 0.5:
+                    o["rule_meta"] = f"derived-by-n{b}"
             pulls = [x["name"] for x in ins if x["pull"]]
             if pulls and rnd.random() < 0.5:
                 o["data_deps"] = rnd.sample(pulls, k=rnd.randint(1, len(pulls)))
@@ -292,6 +297,14 @@ class C06(Property):
             if got == "ok" and c.status != ST.VALIDATED:
                 out.viol("final_status", f"{c.name} status {c.status} after connect()", spec=spec)
         if got == "ok":
+            # both ends of every link agree on the metadata that was exchanged (inputs here leave units to the source)
+            for (a, o, b, i) in spec["links"]:
+                iinfo, oinfo = comps[b].inputs[i].info, comps[a].outputs[o].info
+                out.count("link_metadata_compared")
+                if iinfo is None or iinfo.time is None or iinfo.grid is None or iinfo.units != oinfo.units:
+                    out.viol("link_metadata_disagree", f"after connect n{b}.{i} has units {getattr(iinfo, 'units', None)} but its source n{a}.{o} delivers {oinfo.units}", spec=spec)
+                elif {k: str(v) for k, v in iinfo.meta.items()} != {k: str(v) for k, v in oinfo.meta.items()}:
+                    out.viol("link_metadata_disagree", f"after connect n{b}.{i} has metadata {iinfo.meta} but its source n{a}.{o} declares {oinfo.meta}", spec=spec)
             # every requested initial pull delivers the producer's initial value
             for (a, o, b, i) in spec["links"]:
                 ispec = next(x for x in spec["nodes"][b]["ins"] if x["name"] == i)
